@@ -80,6 +80,14 @@ def check_write_once(b, facts, res, rid):
                     res.violation(rid, "%s|sql-not-write-once" % b.name(),
                                   "%s::write_object executes %r: only `INSERT OR IGNORE` keeps the first write" % (b.name(), lits), body.loc(t.line))
                 continue
+            if eff == "map" and t.callee.name == "entry":
+                # `entry(key).or_insert*(..)` is insert-if-absent by construction
+                nxt = [tt for _, tt in body.calls() if tt.callee is not None and tt.args and
+                       any(x[0] == "call" and x[3] == bi for x in walk(arg_term(body, tt, 0, 6)))]
+                if nxt and all(tt.callee.name in ("or_insert", "or_insert_with", "or_insert_with_key", "or_default") for tt in nxt) and \
+                        any(key_derived(arg_term(body, t, i, 10), names) for i in range(1, len(t.args))):
+                    res.instance(rid, "%s: entry(key).%s in %s is insert-if-absent" % (b.name(), nxt[0].callee.name, body.path), body.loc(t.line))
+                    continue
             al = absence_lits(body, bi, facts, names)
             # the guard must talk about the same store / path as the effect
             res.instance(rid, "%s: %s (%s) in %s dominated by %s" % (b.name(), t.callee.name, eff, body.path, al[:2] or "NOTHING"), body.loc(t.line))
@@ -315,6 +323,29 @@ def check_wrapper(b, facts, res):
                 lits[m] = (tuple(ls), passes)
                 if not passes:
                     res.violation("S3", "%s|%s-drops-%s" % (b.name(), m, pn), "%s::%s does not pass its %s on to the backend" % (b.name(), m, pn), body.loc(t.line))
+    # S3b: the codec used by write_object and read_object is the same family (encoder <-> decoder)
+    if b.name() != "DynAdapter":
+        fam = {}
+        for m in ("read_object", "write_object"):
+            body = b.methods.get(m)
+            if body is None:
+                continue
+            for bi, t in body.calls():
+                c = t.callee
+                if c is None or c.krate in ("std", "core", "alloc", "anyhow", "melda"):
+                    continue
+                nm = (c.impl_self or c.self_ty or c.path)
+                for f_, pair in (("deflate", ("DeflateEncoder", "DeflateDecoder")), ("zlib", ("ZlibEncoder", "ZlibDecoder")), ("gz", ("GzEncoder", "GzDecoder")),
+                                 ("brotli", ("CompressorReader", "Decompressor")), ("brotli", ("CompressorWriter", "DecompressorWriter"))):
+                    if pair[0] in nm:
+                        fam.setdefault(m, set()).add((f_, "enc"))
+                    if pair[1] in nm and pair[0] not in nm:
+                        fam.setdefault(m, set()).add((f_, "dec"))
+        w_ = {f_ for f_, k in fam.get("write_object", set()) if k == "enc"}
+        r_ = {f_ for f_, k in fam.get("read_object", set()) if k == "dec"}
+        res.instance("S3", "%s: write_object encodes with %s, read_object decodes with %s" % (b.name(), sorted(w_), sorted(r_)), None)
+        if w_ != r_ or len(w_) != 1:
+            res.violation("S3", "%s|codec-mismatch" % b.name(), "%s compresses with %s but decompresses with %s" % (b.name(), sorted(w_), sorted(r_)))
     vals = {v[0] for v in lits.values()}
     res.instance("S3", "%s: literals appended read/write/list = %s" % (b.name(), {k: v[0] for k, v in lits.items()}), None)
     if len(vals) > 1:
@@ -385,6 +416,15 @@ def check_ranged_read(b, facts, res):
             if t.callee is not None and t.callee.name in ("from_elem",) and len(t.args) >= 2:
                 if any(x[0] in ("param", "upvar") and x[2] == "length" for x in walk(du.operand_term(t.args[1], 8))):
                     found_sum = found_sum or found_start or True
+    # S4b: no short reads: `Read::read` returns after an arbitrary number of bytes; only read_exact / read_to_end deliver
+    # the requested range
+    for m in members:
+        for bi, t in m.calls():
+            c = t.callee
+            if c is not None and c.name == "read" and (c.trait == "std::io::Read" or "std::io::Read" in (c.full or "")):
+                res.violation("S4", "%s|short-read" % b.name(),
+                              "%s::read_object calls Read::read, which may return fewer bytes than requested (use read_exact / read_to_end): "
+                              "a ranged read of a large value would come back partly zero-filled" % b.name(), m.loc(t.line))
     ok = found_len0 and found_sum and found_start
     res.instance("S4", "%s::read_object: tests length==0:%s offset==0:%s; slice start=offset:%s end=offset+length:%s" % (
         b.name(), found_len0, found_off0, found_start, found_sum), body.loc())
